@@ -716,6 +716,12 @@ int main(int argc, char **argv)
       FILE *f = fopencookie(&ck, "r", io);
       { int r; cap_begin(); r = config_read(&cfg, f); cap_end(); do_read(r); } fclose(f); free(s);
     }
+    else if (OP("probe_badfile", 2)) {
+      /* does this system have a file that opens but whose read fails?  (the I/O-error cases are skipped otherwise) */
+      char *p = unhex(w[1], NULL); FILE *f = fopen(p, "rt"); int ok = 0;
+      if (f) { char b[8]; size_t n = fread(b, 1, sizeof b, f); ok = (n == 0 && ferror(f)); fclose(f); }
+      printf("%d", ok); free(p);
+    }
     else if (OP("read_file_ioerr", 2)) {
       /* config_read_file of a file that opens but whose first read fails (e.g. /proc/self/mem) */
       char *p = unhex(w[1], NULL); int r; cap_begin(); r = config_read_file(&cfg, p); cap_end(); do_read(r); free(p);
